@@ -66,7 +66,7 @@ def time_evolution_for_term(term: PauliTerm, time: Union[float, sympy.Expr]) -> 
     if term.is_constant:
         return circuit
 
-    if term.coefficient.imag > 1e-9:
+    if abs(term.coefficient.imag) > 1e-9:
         raise ValueError("Coefficients of terms must be real for Trotterization.")
 
     for i, qubit_id in enumerate(qubit_indices):
